@@ -351,8 +351,8 @@ func (r *runner) record(point string) {
 func (r *runner) ask(line string) string {
 	var ans string
 	var err error
-	if !lib.WithDeadline(60*time.Second, func() { ans, err = r.drv.Ask(line) }) {
-		err = fmt.Errorf("no answer within 60 s")
+	if !lib.WithDeadline(driverDeadline, func() { ans, err = r.drv.Ask(line) }) {
+		err = fmt.Errorf("no answer within %v", driverDeadline)
 	}
 	if err != nil {
 		r.res.Fatalf("%s step %d: driver died or did not answer %q: %v", r.name, len(r.log), line, err)
